@@ -238,6 +238,12 @@ func init() {
 		extModelDoc[n] = "no effect on the heap (sequential semantics; mutual exclusion is not modelled); the ghost set of mutexes held by the call is updated"
 		extModels[n] = m
 	}
+	specBuiltins["wrap32"] = func(env *SpecEnv, n SCall) TV {
+		return TV{S("%s", wrapTerm(bterm(env.eval(n.Args[0])), types.Typ[types.Int32])), types.Typ[types.Int32]}
+	}
+	specBuiltins["wrap64"] = func(env *SpecEnv, n SCall) TV {
+		return TV{S("%s", wrapTerm(bterm(env.eval(n.Args[0])), types.Typ[types.Int64])), types.Typ[types.Int64]}
+	}
 	specBuiltins["muheld"] = func(env *SpecEnv, n SCall) TV {
 		return TV{S("(%s %s)", env.e.cur(env.cur, "$mu.w", []string{"Ref"}, "Bool"), env.muArg(n.Args[0])), boolT}
 	}
